@@ -24,7 +24,7 @@ ID = "C02"
 INTS = ["0", "1", "2", "3", "7", "8", "63", "64", "9223372036854775807", "0x7fffffffffffffff",
         "0x8000000000000000", "0xffffffffffffffff", "18446744073709551615u", "0u", "1u", "2U", "1L", "2UL", "3LL", "4ull",
         "5lu", "6LLU", "7uLL", "8Ul", "010", "017", "0x10", "0X1F", "0b11", "0B10", "00"]
-CHARS = ["'a'", "'0'", "' '", "'\\n'", "'\\0'", "'\\\\'", "'\\''", "'\\x41'", "'\\101'", "'\"'", "'\\t'"]
+CHARS = ["'a'", "'0'", "' '", "'\\n'", "'\\0'", "'\\\\'", "'\\''", "'\\x41'", "'\\101'",  "'\\12'", "'\\x7'", "'\"'", "'\\t'"]
 
 
 def L(sp):
